@@ -82,7 +82,9 @@ Fixpoint static_slots (rstatic : list prov) (st : list (nat * option nat) * nat)
   match rstatic with
   | [] => ([], st)
   | p :: r =>
-    let zero := vm_mapped (fst st) in
+    (* mustZeroIfRemainderSkipped; a run-group provider that (through Reorder) sits before invoke
+       has no mustZeroIfInnerNotCalled list *)
+    let zero := match p_class p with ClWrapper | ClFallible => [] | _ => vm_mapped (fst st) end in
     let st' := add_to_vmap (pflow p FOut) (p_downR p) st in
     let (done, st'') := static_slots r st' in
     ((p, zero) :: done, st'')
@@ -96,7 +98,8 @@ Fixpoint run_slots (rrun : list prov) (dn up : list (nat * option nat)) (cnt : n
   | p :: r =>
     let (dn1, c1) := add_to_vmap (pflow p FIn) (p_downR p) (dn, cnt) in
     let (up1, c2) := add_to_vmap (pflow p FRet) (p_upR p) (up, c1) in
-    let zero := vm_mapped up1 in
+    (* mustZeroIfInnerNotCalled; a static provider after invoke has no mustZeroIfRemainderSkipped list *)
+    let zero := match p_class p with ClFallibleStatic => [] | _ => vm_mapped up1 end in
     match run_slots r dn1 up1 c2 with
     | (done, dn2, up2, c3) => ((p, zero) :: done, dn2, up2, c3)
     end
